@@ -22,7 +22,7 @@ corr():        model <-> implementation: the Lean model (KawinV.SaveLoad with th
                (KawinV.Forward, rows of the generated table) run on the same calls; (b) untrained and partially trained
                MulticomponentSurrogate of Al-Mg-Si (5 precipitate phases), every phase, exact equality; trained surrogates at
                their training points; surrogates rebuilt from their JSON file."""
-import contextlib, inspect, io, json, math, os, re, shutil, tempfile, traceback, warnings
+import contextlib, copy, inspect, io, json, math, os, re, shutil, tempfile, traceback, warnings
 import numpy as np
 import vlib
 from vlib import Result, enc_list, f2b, b2f, Toks, close
@@ -1902,6 +1902,668 @@ def json_model_compare(res, ctx, rng, jlines, jpending, nrand):
             res.disagree('nested list structure', desc, show_nest(back)[:200], nest[:200])
 
 
+# ============================================================================ save / load HISTORIES in one process
+HIST_NAMES = ['ckpt', 'run_a', 'state.b', 'out_2']
+HIST_IGNORED = set(PSDREC_SLOTS)        # the recorded size-distribution history is the known finding psd-recording-not-saved
+
+
+def gen_history(rng, kind):
+    """a random sequence of solve / save / load calls on 2-3 file names which are REUSED: ('solve', i, steps) | ('save', i, name) |
+    ('load', name); i indexes the live model objects (0 = the model under study, then every model a file was loaded into, in the
+    order of the loads).  Every history starts with solve, save(f0), load(f0) and ends with solve, save(f0), load(f0): the
+    second load of a name that has been loaded before must give the SECOND save point.  Names are spelt with and without
+    the '.npz' suffix (the same file)."""
+    names = rng.sample(HIST_NAMES, rng.choice([2, 2, 3]))
+    spell = lambda f: f + ('.npz' if rng.random() < 0.4 else '')
+    steps = (lambda: rng.randint(15, 45)) if kind == 'P' else (lambda: rng.randint(3, 25))
+    max_live = 3 if kind == 'P' else 5
+    loaded_solves_left = 1 if kind == 'P' else 4          # the first solve call of a precipitation model costs ~1 s (setup)
+    ops = [('solve', 0, steps()), ('save', 0, spell(names[0])), ('load', spell(names[0]))]
+    live, saved, started = 2, {names[0]}, {0}
+    for _ in range(rng.randint(3, 7) if kind == 'P' else rng.randint(4, 12)):
+        k = rng.random()
+        if k < 0.35:
+            i = rng.randrange(live) if rng.random() < 0.5 else 0
+            if i not in started:
+                if loaded_solves_left <= 0:
+                    i = 0
+                else:
+                    loaded_solves_left -= 1; started.add(i)
+            ops.append(('solve', i, steps()))
+        elif k < 0.7:
+            f = rng.choice(names)
+            ops.append(('save', rng.randrange(live), spell(f))); saved.add(f)
+        elif live < max_live:
+            ops.append(('load', spell(rng.choice(sorted(saved))))); live += 1
+    src = rng.choice(sorted(started))
+    ops += [('solve', src, steps()), ('save', src, spell(names[0])), ('load', spell(names[0]))]
+    return ops
+
+
+def canon_name(f):
+    return f if f.endswith('.npz') else f + '.npz'
+
+
+def run_history(res, ctx, tmp, kind, cfg, ops, lines=None, pending=None):
+    """execute one history on real models; ORACLE after every load: the freshly constructed model the file was loaded into holds,
+    in every slot, what the saved model held AT THE MOMENT OF THE LAST save() TO THAT NAME (deep snapshot taken at save time)"""
+    if kind == 'P':
+        build = lambda: build_precip(cfg)
+        getter = precip_get
+        names_of = lambda m: [n for n in precip_slot_names(m) if slot_template(n) not in HIST_IGNORED]
+        solve = lambda cap, n: cap.solve(3600.0 * 2, n, cfg['solver'])
+        phases = None
+    else:
+        build = lambda: build_diff(cfg)
+        getter = diff_get
+        names_of = lambda m: list(DIFF_SLOTS)
+        def solve(cap, n):
+            dt = diff_dt_estimate(cap.model, cfg)
+            return cap.solve(dt * n * 1.0001, n + 2, cfg['solver']) if dt is not None else cap.solve(2.0e5, n, cfg['solver'])
+    sub = tempfile.mkdtemp(prefix='hist_', dir=tmp)
+    m0 = build()
+    names = names_of(m0)
+    phases = [str(p) for p in m0.phases] if kind == 'P' else []
+    snap = lambda m: dict(slots_of(m, names, getter), **({'pData.n': np.array(float(m.pData.n))} if kind == 'P' else {}))
+    fields = names + (['pData.n'] if kind == 'P' else [])
+    states = [slots_of(m0, names, getter)]                       # state 0: a freshly constructed model
+    live, caps = [m0], [StepCap(m0)]
+    store = {}                                                   # canonical file name -> snapshots of every save to it, in order
+    mops, loads = [], []
+    mname = 'precipitation' if kind == 'P' else 'diffusion'
+    base = dict(history=True, kind=kind, cfg=dict(cfg), ops=[list(o) for o in ops])
+    nloads_checked = 0
+    for k, op in enumerate(ops):
+        if op[0] == 'solve':
+            _, i, n = op
+            solve(caps[i], n)
+            states.append(slots_of(live[i], names, getter)); mops.append('S %d %d' % (i, len(states) - 1))
+            res.count('history-op:solve-%s' % ('original' if i == 0 else 'loaded-model'))
+        elif op[0] == 'save':
+            _, i, f = op
+            live[i].save(os.path.join(sub, f))
+            store.setdefault(canon_name(f), []).append(snap(live[i]))
+            mops.append('W %d %s' % (i, f))
+            res.count('history-op:save-%s' % ('first-use-of-name' if len(store[canon_name(f)]) == 1 else 'name-reused'))
+        else:
+            _, f = op
+            fresh = build()
+            desc = dict(base, at_op=k, file=f, saves_to_this_name=len(store.get(canon_name(f), [])), model=mname)
+            mops.append('L %s 0' % f)
+            try:
+                fresh.load(os.path.join(sub, f))
+            except Exception as e:
+                tb = traceback.format_exc()
+                res.violate('saveload-history:load-raises-%s' % type(e).__name__, 'load() of a file written by save() in the same process raised %s: %s' % (type(e).__name__, str(e)[:120]),
+                            desc, observed=tb[-500:], required='the file loads')
+                loads.append(dict(desc=desc, outcome=('raised', type(e).__name__), after=None))
+                continue
+            got = snap(fresh)
+            want = store[canon_name(f)][-1]
+            loads.append(dict(desc=desc, outcome=None, after=got))
+            live.append(fresh); caps.append(StepCap(fresh))
+            nloads_checked += 1
+            nth = len(store[canon_name(f)])
+            res.count('history-op:load-after-%s' % ('one-save' if nth == 1 else 'several-saves-to-the-name'))
+            res.case(('history', kind, repr(sorted(cfg.items()))[:80], k, f, nth), bool(float(np.ravel(want['t' if kind == 'D' else 'pData.time'])[-1]) > 0))
+            bad = [n for n in fields if not same(want[n], got[n])]
+            if not bad:
+                continue
+            eq = lambda sn: all(same(sn[n], got[n]) for n in fields)
+            earlier = [j for j, sn in enumerate(store[canon_name(f)][:-1]) if eq(sn)]
+            other = [g for g, sns in store.items() if g != canon_name(f) and any(eq(sn) for sn in sns)]
+            tnow = lambda sn: float(np.ravel(sn['t' if kind == 'D' else 'pData.time'])[-1])
+            if earlier:
+                res.violate('saveload-history:load-returns-earlier-save-point',
+                            '%s model: save() was called %d times on %r in this process; load() returns the state of save no. %d (t = %.6g), not of the last one (t = %.6g)'
+                            % (mname, nth, f, earlier[-1] + 1, tnow(got), tnow(want)), desc,
+                            observed={n: brief(got[n]) for n in bad[:4]}, required={n: brief(want[n]) for n in bad[:4]})
+            elif other:
+                res.violate('saveload-history:load-returns-other-file', '%s model: load(%r) returns what was saved to %s' % (mname, f, other), desc,
+                            observed={n: brief(got[n]) for n in bad[:4]}, required={n: brief(want[n]) for n in bad[:4]})
+            else:
+                res.violate('saveload-history:%s-differs' % slot_template(bad[0]),
+                            '%s model: after load(%r) slot(s) %s differ from the model as it was at the last save() to that name' % (mname, f, bad[:6]), desc,
+                            observed={n: brief(got[n]) for n in bad[:4]}, required={n: brief(want[n]) for n in bad[:4]})
+    res.sample(dict(model=mname, history=[list(o) for o in ops], loads_checked=nloads_checked), cap=4)
+    if lines is not None:
+        lines.append('sl.hist %s %d %s %d %s 0 %d %s' % (kind, len(phases), ' '.join(phases), len(states), ' '.join(enc_slots(s) for s in states), len(mops), ' '.join(mops)))
+        pending.append(dict(loads=loads, names=names, desc=base))
+
+
+def parse_hist(line):
+    t = Toks(line)
+    if not t.ok:
+        return {'bad': t.err}
+    assert t.tok() == 'H'
+    outs = []
+    for _ in range(t.nat()):
+        tag = t.tok()
+        if tag == 'X':
+            outs.append(('nofile',))
+        elif tag == 'E':
+            what = t.tok()
+            outs.append(('err', what, t.tok()) if what == 'keyerror' else ('err', what))
+        else:
+            slots = {}
+            for _ in range(t.nat()):
+                name = t.tok(); tg = t.tok()
+                if tg == 'N':
+                    slots[name] = None
+                else:
+                    shape = tuple(t.nat() for _ in range(t.nat()))
+                    slots[name] = np.array(t.flts(), dtype=float).reshape(shape)
+            outs.append(('ok', slots))
+    return {'outs': outs}
+
+
+def compare_histories(res, answers, pending):
+    for ans, p in zip(answers, pending):
+        r = parse_hist(ans)
+        res.count('history-model-compared')
+        if 'bad' in r:
+            res.disagree('save/load history model error', p['desc'], 'ok', r['bad']); continue
+        if len(r['outs']) != len(p['loads']):
+            res.disagree('number of load calls', p['desc'], len(p['loads']), len(r['outs'])); continue
+        for o, l in zip(r['outs'], p['loads']):
+            if (o[0] == 'ok') != (l['outcome'] is None):
+                res.disagree('outcome of load() in a history', l['desc'], l['outcome'] or 'ok', o[:2]); break
+            if o[0] == 'ok':
+                bad = [n for n in p['names'] if not same(o[1].get(n), l['after'][n])]
+                if bad:
+                    res.disagree('slot %s after load() in a history' % bad[0], l['desc'], brief(l['after'][bad[0]]), brief(o[1].get(bad[0]))); break
+
+
+def hist_precip_cfg(rng):
+    cfg = gen_precip_cfg(rng)
+    cfg.update(record=False, strength=False)
+    return cfg
+
+
+def check_histories(res, ctx, tmp, rng, nP, nD, oracle_only, errs):
+    lines, pending = [], []
+    for _ in range(nD):
+        cfg = gen_diff_cfg(rng)
+        cfg['rec'] = rng.choice(['on', 'off', 'on', 'off', 'switched-off'])       # recorded arrays present or None in the file
+        cfg['rec'] = 'on' if cfg['rec'] == 'switched-off' else cfg['rec']
+        ops = gen_history(rng, 'D')
+        guarded(res, errs, 'saveload-history-diffusion', dict(history=True, kind='D', cfg=dict(cfg), ops=[list(o) for o in ops]),
+                lambda: run_history(res, ctx, tmp, 'D', cfg, ops, lines, pending))
+    for _ in range(nP):
+        cfg = hist_precip_cfg(rng)
+        ops = gen_history(rng, 'P')
+        guarded(res, errs, 'saveload-history-precipitation', dict(history=True, kind='P', cfg=dict(cfg), ops=[list(o) for o in ops]),
+                lambda: run_history(res, ctx, tmp, 'P', cfg, ops, lines, pending))
+    if ctx.driver_ok and not oracle_only and lines:
+        guarded(res, errs, 'history-model-comparison', {}, lambda: compare_histories(res, vlib.run_driver(PROP, lines), pending))
+        res.traces += len(lines)
+
+
+# ============================================================================ surrogates: training grids, training orders, rebuild
+class MemoTherm:
+    """forwards to the real thermodynamics; a method called again with the same arguments returns (a copy of) the first result,
+    so that two surrogates trained on the same grid receive bit-identical training data (a second pycalphad evaluation of the
+    same point is reproducible only to the minimiser tolerance)"""
+    def __init__(self, th):
+        object.__setattr__(self, '_th', th)
+        object.__setattr__(self, '_memo', {})
+
+    def __getattr__(self, name):
+        v = getattr(self._th, name)
+        if callable(v) and not name.startswith('_'):
+            def f(*a, **k):
+                key = (name, tuple(_argkey(x) for x in a), tuple(sorted((kk, _argkey(x)) for kk, x in k.items())))
+                if key not in self._memo:
+                    self._memo[key] = v(*a, **k)
+                return copy.deepcopy(self._memo[key])
+            return f
+        return v
+
+
+def _argkey(x):
+    if isinstance(x, (str, bool, type(None))):
+        return x
+    a = np.asarray(x)
+    return (str(a.dtype), a.shape, a.tobytes())
+
+
+def fit_info(kernel_obj):
+    """what can be read off a fitted kernel: (number of nodes the interpolator was built on, fitted with normalised inputs?)"""
+    rbf = getattr(kernel_obj, 'rbfModel', None)
+    y = getattr(rbf, 'y', None)
+    nodes = None if y is None else int(np.shape(y)[0])
+    sc, off = getattr(kernel_obj, 'scale', None), getattr(kernel_obj, 'xoffset', None)
+    normalized = None if sc is None or off is None else not (bool(np.all(np.asarray(sc) == 1)) and bool(np.all(np.asarray(off) == 0)))
+    return nodes, normalized
+
+
+def decade(d):
+    return '1e%+d' % int(math.floor(math.log10(d) + 1e-9))
+
+
+def rel_err(out, want):
+    """largest deviation relative to max(|want|, 1e-6 * largest |want|) over a tuple of arrays"""
+    worst = 0.0
+    for a, b in zip(out, want):
+        a = np.asarray(a, dtype=float); b = np.asarray(b, dtype=float)
+        if a.shape != b.shape:
+            if a.size == b.size:
+                a = a.reshape(b.shape)
+            else:
+                return float('inf')
+        if not np.all(np.isfinite(a)):
+            return float('inf')
+        sc = float(np.max(np.abs(b))) if b.size else 0.0
+        if b.size:
+            worst = max(worst, float(np.max(np.abs(a - b) / np.maximum(np.maximum(np.abs(b), sc * 1e-6), 1e-300))))
+    return worst
+
+
+QUANT = {      # quantity -> (data attribute, model attribute, short token of the Lean model)
+    'drivingForce': ('drivingForceData', 'drivingForceModels', 'df'),
+    'diffusivity': ('diffusivityData', 'diffusivityModels', 'diff'),
+    'interfacialComposition': ('interfacialCompositionData', 'interfacialCompositionModels', 'ic'),
+    'curvature': ('curvatureData', 'curvatureModels', 'curv'),
+}
+REFIT_ORDER = ['drivingForce', 'diffusivity', 'interfacialComposition', 'curvature']
+TRAIN_TOL = 1e-6     # the unchanged code reproduces its training data to <= 2e-10 on these grid classes (1000 grids probed): margin >= 5000
+
+
+def make_surrogate(cls, th, kernel):
+    """kernel None: the constructor default (cubic, normalize=True)"""
+    return cls(th) if kernel is None else cls(th, kernelKwargs=dict(kernel))
+
+
+def kernel_settings(kernel):
+    k = {'kernel': 'cubic', 'normalize': True} if kernel is None else kernel
+    return str(k.get('kernel', 'thin_plate_spline')), bool(k.get('normalize', False))
+
+
+def train_quantity(s, q, a):
+    """a: JSON-able training arguments of one quantity"""
+    if q == 'drivingForce':
+        s.trainDrivingForce(np.array(a['x']), np.array(a['T']), logX=a['log'], broadcast=a['broadcast'])
+    elif q == 'diffusivity':
+        s.trainDiffusivity(np.array(a['x']), np.array(a['T']), logX=a['log'], broadcast=a['broadcast'])
+    elif q == 'interfacialComposition':
+        s.trainInterfacialComposition(np.array(a['T']), np.array(a['g']), logY=a['log'], broadcast=a['broadcast'])
+    else:
+        s.trainCurvature(np.array(a['x']), np.array(a['T']), logX=a['log'], broadcast=a['broadcast'])
+
+
+def stored_points(s, q, ph):
+    """(training inputs as stored, stored training values as a tuple of arrays, number of distinct stored input rows,
+    number of input columns the fit uses)"""
+    d = getattr(s, QUANT[q][0])[ph]
+    binary = s.numElements == 2
+    if q == 'interfacialComposition':
+        T, g = np.ravel(d['T']).astype(float), np.ravel(d['gExtra']).astype(float)
+        cols = [c for c, single in ((T, d['singleT']), (g, d['singleG'])) if not single]
+        return (T, g), (np.asarray(d['xpalpha']), np.asarray(d['xpbeta'])), _distinct(cols), len(cols)
+    x = np.asarray(d['x'], dtype=float); T = np.ravel(d['T']).astype(float)
+    x2 = x.reshape(len(T), -1)
+    cols = ([x2[:, j] for j in range(x2.shape[1])] if not d['singleX'] else []) + ([T] if not d['singleT'] else [])
+    if q == 'drivingForce':
+        vals = (np.asarray(d['dg']), np.asarray(d['xp']))
+    elif q == 'diffusivity':
+        vals = (np.asarray(d['dnkj']), np.asarray(d['dtracer']))
+    else:
+        vals = tuple(np.asarray(d[k]) for k in ('dc', 'mc', 'gba', 'beta', 'xEqAlpha', 'xEqBeta'))
+    return ((x[:, 0] if binary else x2), T), vals, _distinct(cols), len(cols)
+
+
+def _distinct(cols):
+    return int(np.unique(np.column_stack(cols), axis=0).shape[0]) if cols else 0
+
+
+def predict(s, q, pts):
+    """the getters of quantity q at points pts = (x, T) / (T, g): tuple of arrays"""
+    if q == 'drivingForce':
+        return tuple(s.getDrivingForce(pts[0], pts[1]))
+    if q == 'diffusivity':
+        return (s.getInterdiffusivity(pts[0], pts[1]), s.getTracerDiffusivity(pts[0], pts[1]))
+    if q == 'interfacialComposition':
+        return tuple(s.getInterfacialComposition(pts[0], pts[1]))
+    outs = [s.curvatureFactor(np.asarray(pts[0])[i], float(pts[1][i])) for i in range(len(pts[1]))]
+    return tuple(np.array([np.asarray(getattr(c, k), dtype=float) for c in outs]) for k in ('dc', 'mc', 'gba', 'beta', 'c_eq_alpha', 'c_eq_beta'))
+
+
+def phase_of(s, q):
+    return s.phases[0] if q == 'diffusivity' else s.phases[1]
+
+
+def close_axis(rng, base, d, n, jitter=0.15):
+    """n values starting at base with spacing ~d (raw units)"""
+    return [float(base + d * (i + (rng.uniform(-jitter, jitter) if 0 < i else 0.0))) for i in range(n)]
+
+
+X_SPACINGS = [1e-5, 3e-5, 1e-4, 5e-4, 1e-3, 3e-3, 1e-2]
+T_SPACINGS = [0.1, 0.5, 1.0, 5.0, 10.0, 50.0]
+G_SPACINGS = [1.0, 10.0, 100.0, 1000.0]
+
+
+def gen_grid_spec(rng, system, forced=None):
+    """one training-grid case: CLOSELY SPACED points in raw units on the composition axis (1e-5 .. 1e-2, linear or log fit), on
+    the temperature axis (0.1 .. 50 K) and on the Gibbs-Thomson axis (1 .. 1000 J/mol), single-T / single-x / single-g axes,
+    grid (broadcast) or explicit point list, dilute compositions, the three kernel settings"""
+    f = forced or {}
+    kernel = f.get('kernel', rng.choice([None, {'kernel': 'cubic', 'normalize': True}, {'kernel': 'linear', 'normalize': False}]))
+    dx = f.get('dx', rng.choice(X_SPACINGS)); dT = f.get('dT', rng.choice(T_SPACINGS)); dg = rng.choice(G_SPACINGS)
+    log = f.get('log', rng.random() < 0.5)
+    nT = f.get('nT', rng.choice([1, 2, 3, 4])); nx = f.get('nx', rng.choice([1, 2, 3, 4, 5]))
+    if nT == 1 and nx == 1:
+        nx = 3
+    bc = f.get('broadcast', True if (nT == 1 or nx == 1) else rng.random() < 0.6)
+    if system == 'binary':
+        x0 = f.get('x0', 10 ** rng.uniform(-3.6, -2.3))
+        xs = close_axis(rng, x0, dx, nx)
+        if nx > 1 and rng.random() < 0.5 and 'nx' not in f:
+            xs.append(xs[-1] + 10 ** rng.uniform(-3, -2.2))           # a far point besides the close ones
+        Ts = close_axis(rng, round(rng.uniform(650, 780), 2), dT, nT, 0.0)
+        ng = rng.choice([1, 2, 3, 4]) if nT > 1 else rng.choice([2, 3, 4])
+        gs = close_axis(rng, 10 ** rng.uniform(1.5, 3.5), dg, ng)
+        bcg = True if (nT == 1 or ng == 1) else rng.random() < 0.6
+        def pts(a, b, grid):       # explicit point lists of equal length when broadcast is off
+            return (a, b) if grid else ([v for _ in b for v in a], [w for w in b for _ in a])
+        xa, Ta = pts(xs, Ts, bc)
+        Tg, gg = (Ts, gs) if bcg else ([t for t in Ts for _ in gs], [g for _ in Ts for g in gs])
+        train = {'drivingForce': dict(x=xa, T=Ta, log=log, broadcast=bc), 'diffusivity': dict(x=xa, T=Ta, log=log, broadcast=bc),
+                 'interfacialComposition': dict(T=Tg, g=gg, log=rng.random() < 0.5, broadcast=bcg)}
+        cls = {'x': 'single-x' if len(xs) == 1 else 'dx~' + decade(dx), 'T': 'single-T' if nT == 1 else 'dT~' + decade(dT),
+               'g': 'single-g' if ng == 1 else 'dg~' + decade(dg)}
+    else:
+        a0 = 0.098 * rng.uniform(0.95, 1.0); c0 = 0.083 * rng.uniform(0.95, 1.0)
+        na, nc = (1, 1) if nx == 1 else rng.choice([(2, 2), (3, 2), (2, 3)])
+        A = close_axis(rng, a0, dx, na); C = close_axis(rng, c0, dx, nc)
+        P = [[a, c] for a in A for c in C]
+        Ts = close_axis(rng, float(rng.randint(1050, 1090)), dT, nT, 0.0)
+        if nT == 1 and len(P) == 1:
+            Ts = close_axis(rng, Ts[0], dT, 3, 0.0)
+        xa, Ta = (P, Ts) if bc else ([p for _ in Ts for p in P], [t for t in Ts for _ in P])
+        train = {'drivingForce': dict(x=xa, T=Ta, log=log, broadcast=bc), 'diffusivity': dict(x=xa, T=Ta, log=log, broadcast=bc)}
+        if f.get('curvature', rng.random() < 0.4):
+            train['curvature'] = dict(x=xa, T=Ta, log=log, broadcast=bc)
+        cls = {'x': 'single-x' if len(P) == 1 else 'dx~' + decade(dx), 'T': 'single-T' if len(Ts) == 1 else 'dT~' + decade(dT)}
+    return dict(check='training-grid', system=system, kernel=kernel, train=train, classes=cls)
+
+
+def spacing_class(spec, q):
+    c = spec['classes']
+    return '%s,%s' % ((c['T'], c['g']) if q == 'interfacialComposition' else (c['x'], c['T']))
+
+
+def run_grid_case(res, th, spec):
+    """ORACLE: a trained surrogate reproduces EVERY stored training value at EVERY stored training point (rtol TRAIN_TOL), and the
+    fitted interpolator was built on as many nodes as there are distinct stored training points"""
+    vlib.use_repo()
+    from kawin.thermo import BinarySurrogate, MulticomponentSurrogate
+    cls = BinarySurrogate if spec['system'] == 'binary' else MulticomponentSurrogate
+    cname = cls.__name__
+    s = make_surrogate(cls, th, spec['kernel'])
+    for q, a in spec['train'].items():
+        lin = 'log' if a['log'] else 'lin'
+        desc = dict(spec, quantity=q, surrogate=cname)
+        sc = spacing_class(spec, q)
+        res.count('training-grid:%s:%s' % (q, lin))
+        for part in sc.split(','):
+            res.count('training-grid-axis:' + part)
+        res.count('training-grid:broadcast=%s' % a['broadcast'])
+        with _quiet():
+            ok, _ = _guard(res, 'surrogate-training-grid:%s:%s:%s' % (q, lin, sc), 'train %s on a closely spaced grid' % q, desc, lambda: train_quantity(s, q, a))
+        if not ok:
+            continue
+        ph = phase_of(s, q)
+        if ph not in getattr(s, QUANT[q][1]):
+            res.count('training-grid-no-model:' + q); continue           # (curvature: no successful training point)
+        pts, vals, ndistinct, ncols = stored_points(s, q, ph)
+        res.case(('training-grid', cname, q, lin, sc, repr(spec['kernel']), float(np.ravel(pts[0])[0])), True)
+        ok, out = _guard(res, 'surrogate-training-point-query:%s:%s:%s' % (q, lin, sc), 'query %s at its stored training points' % q, desc, lambda: predict(s, q, pts))
+        if ok:
+            err = rel_err(out, vals)
+            res.extra['max_training_point_error'] = max(res.extra.get('max_training_point_error', 0.0), err if np.isfinite(err) else 0.0)
+            if not err <= TRAIN_TOL:
+                j = [i for i, (o, v) in enumerate(zip(out, vals)) if not rel_err((o,), (v,)) <= TRAIN_TOL][0]
+                o, v = np.asarray(out[j], dtype=float), np.asarray(vals[j], dtype=float)
+                i = int(np.argmax(np.abs(o.reshape(len(o), -1) - v.reshape(len(v), -1)).max(axis=1))) if o.shape == v.shape and o.ndim else 0
+                res.violate('surrogate-training-point-not-reproduced:%s:%s:%s' % (q, lin, sc),
+                            'trained %s surrogate (%s fit, %s) does not reproduce its stored training data: relative deviation %.3g at training point %d (%s); tolerance %g'
+                            % (q, 'log' if a['log'] else 'linear', sc, err, i, [np.asarray(p)[i].tolist() for p in pts], TRAIN_TOL), desc,
+                            observed=np.asarray(o)[i].tolist() if o.ndim else float(o), required=np.asarray(v)[i].tolist() if v.ndim else float(v))
+        nodes, _norm = fit_info(getattr(s, QUANT[q][1])[ph])
+        if nodes is not None:
+            res.count('training-grid-node-count-checked')
+            if nodes != ndistinct:
+                res.violate('surrogate-fit-dropped-training-points',
+                            'the %s surrogate stores %d distinct training points but its interpolator was built on %d nodes (%s fit, %s)' % (q, ndistinct, nodes, lin, sc),
+                            desc, observed=nodes, required=ndistinct)
+
+
+def gen_orders_spec(rng, system, forced=None):
+    """training arguments of 2-3 quantities with different axis counts (full grid / single-T / single-x or single-g) and a kernel
+    setting; the histories (all orders of all three, all ordered pairs, getter calls in between) are built by run_orders_case"""
+    f = forced or {}
+    kernel = f.get('kernel', rng.choice([None, {'kernel': 'cubic', 'normalize': True}, {'kernel': 'linear', 'normalize': False}, {'kernel': 'cubic', 'normalize': False}]))
+    if system == 'binary':
+        xs = sorted(round(10 ** rng.uniform(-3.3, -2.1), 6) for _ in range(rng.randint(3, 4)))
+        xs = [x + 1e-4 * i for i, x in enumerate(xs)]
+        Ts = [float(rng.randint(660, 700)), float(rng.randint(720, 750)), float(rng.randint(770, 790))][:rng.randint(2, 3)]
+        gs = [round(v, 1) for v in np.linspace(rng.uniform(50, 200), rng.uniform(2000, 4000), rng.randint(3, 4))]
+        forms = f.get('forms') or {'drivingForce': rng.choice(['grid', 'single-T', 'single-x']), 'diffusivity': rng.choice(['grid', 'single-T', 'single-x']),
+                                   'interfacialComposition': rng.choice(['grid', 'single-T', 'single-g'])}
+        train = {}
+        for q in ('drivingForce', 'diffusivity'):
+            fm = forms[q]
+            train[q] = dict(x=xs if fm != 'single-x' else [xs[1]], T=Ts if fm != 'single-T' else [Ts[0]], log=rng.random() < 0.5, broadcast=True, form=fm)
+        if fm == 'single-x' and len(Ts) < 3:
+            pass
+        fm = forms['interfacialComposition']
+        train['interfacialComposition'] = dict(T=Ts if fm != 'single-T' else [Ts[-1]], g=gs if fm != 'single-g' else [gs[1]], log=rng.random() < 0.5, broadcast=True, form=fm)
+        for q, a in train.items():       # a one-axis fit needs at least three points on that axis
+            if a['form'] in ('single-x', 'single-g') and len(a['T']) < 3:
+                a['T'] = [Ts[0], Ts[0] + 31.0, Ts[0] + 64.0]
+    else:
+        a0 = round(0.098 * rng.uniform(0.96, 1.0), 5); c0 = round(0.083 * rng.uniform(0.96, 1.0), 5)
+        P = [[a, c] for a in (a0, round(a0 * 1.06, 5)) for c in (c0, round(c0 * 1.08, 5))]
+        Ts = [float(rng.randint(1050, 1065)), float(rng.randint(1085, 1100))]
+        forms = f.get('forms') or {'drivingForce': rng.choice(['grid', 'single-T']), 'diffusivity': rng.choice(['grid', 'single-T', 'single-x'])}
+        train = {}
+        for q in ('drivingForce', 'diffusivity'):
+            fm = forms[q]
+            train[q] = dict(x=P if fm != 'single-x' else [P[0]], T=(Ts if fm != 'single-T' else [Ts[0]]) if fm != 'single-x' else [Ts[0], Ts[0] + 17.0, Ts[1]],
+                            log=rng.random() < 0.4, broadcast=True, form=fm)
+    return dict(check='training-orders', system=system, kernel=kernel, train=train, seed=rng.getrandbits(30))
+
+
+def query_points(spec_a, q, binary):
+    """the training points of q and points in between, as arguments of the getters"""
+    mid = lambda v: sorted(set(list(v) + [0.5 * (a + b) for a, b in zip(sorted(v)[:-1], sorted(v)[1:])]))
+    if q == 'interfacialComposition':
+        Tq, gq = mid(spec_a['T']), mid(spec_a['g'])
+        return np.array([t for t in Tq for _ in gq]), np.array([g for _ in Tq for g in gq])
+    Tq = mid(spec_a['T'])
+    if binary:
+        xq = mid(spec_a['x'])
+        return np.array([x for _ in Tq for x in xq]), np.array([t for t in Tq for _ in xq])
+    X = [list(p) for p in spec_a['x']]
+    X = X + [[0.5 * (a + b) for a, b in zip(p, r)] for p, r in zip(X[:-1], X[1:])]
+    return np.array([p for _ in Tq for p in X]), np.array([t for t in Tq for _ in X])
+
+
+_DEFAULT_KW = {}
+
+
+def default_kwargs_intact(res, cls, desc):
+    """the constructor default `kernelKwargs` is ONE dict shared by every surrogate made without settings: it must stay what it was"""
+    d = inspect.signature(cls.__init__).parameters['kernelKwargs'].default
+    if not isinstance(d, dict):
+        return
+    first = _DEFAULT_KW.setdefault(cls.__name__, copy.deepcopy(d))
+    if d != first:
+        res.violate('surrogate-default-kernel-settings-mutated', 'the default kernelKwargs of %s changed from %r to %r while surrogates were trained / queried' % (cls.__name__, first, d),
+                    desc, observed=repr(d), required=repr(first))
+
+
+def run_orders_case(res, ctx, th, spec, tmp, lines=None, pending=None):
+    """ORACLES.  rebuilt = original: for every order of training the quantities (and getter calls in between) the surrogate rebuilt
+    by toJson -> fromJson predicts like the original, at the training points and in between (rtol 1e-8).  order independence:
+    the prediction of quantity Q is that of a surrogate on which ONLY Q was trained (rtol 1e-8; same training data through a
+    memoising thermodynamics).  The Lean model of the fitting state (KawinV.SurrogateFit, hooks of the code) is run on the
+    same histories: normalize flag of the settings after every call, and per quantity whether a kernel exists, whether it was
+    fitted with normalised inputs and on how many nodes - for the original and for the rebuilt object."""
+    vlib.use_repo()
+    from kawin.thermo import BinarySurrogate, MulticomponentSurrogate
+    import itertools, random as _random
+    binary = spec['system'] == 'binary'
+    cls = BinarySurrogate if binary else MulticomponentSurrogate
+    cname = cls.__name__
+    rng = _random.Random(spec['seed'])
+    train = spec['train']
+    qs = list(train)
+    axes = {}
+    for q, a in train.items():
+        ncomp = 1 if (binary or q == 'interfacialComposition') else len(a['x'][0])
+        first, second = (a['T'], a['g']) if q == 'interfacialComposition' else (a['x'], a['T'])
+        axes[q] = (ncomp if len(first) > 1 else 0) + (1 if len(second) > 1 else 0)
+    memo = th if isinstance(th, MemoTherm) else MemoTherm(th)
+    kname, knorm = kernel_settings(spec['kernel'])
+    base = dict(spec, surrogate=cname, axes=axes)
+    qpts = {q: query_points(train[q], q, binary) for q in qs}
+    # ---- reference: only Q trained
+    alone = {}
+    for q in qs:
+        s1 = make_surrogate(cls, memo, spec['kernel'])
+        with _quiet():
+            ok, _ = _guard(res, 'surrogate-train-alone:%s' % q, 'train only %s' % q, dict(base, history=[q]), lambda: train_quantity(s1, q, train[q]))
+        if ok:
+            ok, out = _guard(res, 'surrogate-query-alone:%s' % q, 'query %s' % q, dict(base, history=[q]), lambda: predict(s1, q, qpts[q]))
+            if ok:
+                alone[q] = out
+    hists = [list(p) for p in itertools.permutations(qs)] + ([list(p) for p in itertools.permutations(qs, 2)] if len(qs) > 2 else [])
+    for order in hists:
+        ops = []
+        for i, q in enumerate(order):
+            ops.append(('train', q))
+            if i and rng.random() < 0.3:
+                ops.append(('query', rng.choice(order[:i + 1])))             # a getter call between two trainings
+        oclass = 'axes-' + '>'.join(str(axes[q]) for q in order)
+        desc = dict(base, history=[list(o) for o in ops], order_class=oclass)
+        s = make_surrogate(cls, memo, spec['kernel'])
+        flags, failed = [], False
+        for op, q in ops:
+            if op == 'train':
+                with _quiet():
+                    ok, _ = _guard(res, 'surrogate-train-in-order:%s:%s' % (q, oclass), 'train %s' % q, desc, lambda: train_quantity(s, q, train[q]))
+            else:
+                ok, _ = _guard(res, 'surrogate-query-in-order:%s:%s' % (q, oclass), 'query %s' % q, desc, lambda: predict(s, q, qpts[q]))
+            if not ok:
+                failed = True; break
+            flags.append(bool(s.kernelKwargs.get('normalize', False)) if isinstance(s.kernelKwargs, dict) else None)
+        if failed:
+            continue
+        f = os.path.join(tmp, 'ord_%d' % len(os.listdir(tmp)))
+        ok, _ = _guard(res, 'save-%s.toJson' % cname, 'toJson', desc, lambda: s.toJson(f))
+        if not ok:
+            continue
+        s2 = make_surrogate(cls, memo, spec['kernel'])
+        ok, _ = _guard(res, 'reload-%s.fromJson' % cname, 'fromJson of the file written by toJson', desc, lambda: s2.fromJson(f))
+        if not ok:
+            continue
+        res.case(('training-orders', cname, tuple(o[1] + ':' + o[0][0] for o in ops), oclass, repr(spec['kernel']), spec['seed']), True)
+        res.count('training-orders:' + oclass)
+        res.count('training-orders-kernel:%s,normalize=%s' % (kname, knorm))
+        infos = {}
+        for tag, z in (('O', s), ('B', s2)):
+            for q in REFIT_ORDER:
+                mods = getattr(z, QUANT[q][1], None)
+                ph = phase_of(z, q)
+                infos[tag, q] = fit_info(mods[ph]) if mods is not None and ph in mods else None
+        for q in order:
+            preds = {}
+            for tag, z in (('original', s), ('rebuilt', s2)):
+                ok, out = _guard(res, 'surrogate-query-%s:%s:%s' % (tag, q, oclass), 'query %s on the %s surrogate' % (q, tag), desc, lambda: predict(z, q, qpts[q]))
+                if ok:
+                    preds[tag] = out
+            if len(preds) < 2:
+                continue
+            e = rel_err(preds['rebuilt'], preds['original'])
+            res.count('rebuilt-vs-original:' + ('bit-identical' if e == 0 else 'within-1e-8' if e <= 1e-8 else 'DIFFERENT'))
+            if not e <= 1e-8:
+                res.violate('surrogate-rebuilt-differs:%s:%s' % (q, oclass),
+                            '%s trained in the order %s: the surrogate rebuilt by toJson -> fromJson predicts %s differently (relative deviation %.3g at the training points and in between)'
+                            % (cname, ' > '.join('%s(%d axes)' % (x, axes[x]) for x in order), q, e), dict(desc, quantity=q),
+                            observed=[brief(o) for o in preds['rebuilt']], required=[brief(o) for o in preds['original']])
+            if q in alone:
+                e = rel_err(preds['original'], alone[q])
+                res.count('trained-in-order-vs-alone:' + ('bit-identical' if e == 0 else 'within-1e-8' if e <= 1e-8 else 'DIFFERENT'))
+                if not e <= 1e-8:
+                    res.violate('surrogate-depends-on-training-order:%s' % q,
+                                '%s: the prediction of %s after training %s differs from a surrogate on which only %s was trained with the same data (relative deviation %.3g)'
+                                % (cname, q, ' > '.join('%s(%d axes)' % (x, axes[x]) for x in order), q, e), dict(desc, quantity=q),
+                                observed=[brief(o) for o in preds['original']], required=[brief(o) for o in alone[q]])
+        default_kwargs_intact(res, cls, desc)
+        if lines is not None and None not in flags:
+            mops = ['T %s %d %d %d' % (QUANT[q][2], axes[q], stored_points(s, q, phase_of(s, q))[2], i) if op == 'train' else 'Q %s' % QUANT[q][2]
+                    for i, (op, q) in enumerate(ops)]
+            lines.append('sg.hist %s %s %d %s' % (kname, 'T' if knorm else 'F', len(mops), ' '.join(mops)))
+            pending.append(dict(desc=desc, flags=flags, infos=infos))
+
+
+def compare_orders(res, answers, pending):
+    for ans, p in zip(answers, pending):
+        t = Toks(ans)
+        res.count('surrogate-fit-model-compared')
+        if not t.ok:
+            res.disagree('surrogate fitting-state model error', p['desc'], 'ok', t.err); continue
+        assert t.tok() == 'N'
+        flags = [t.bool() for _ in range(t.nat())]
+        if flags != p['flags']:
+            res.disagree('normalize flag of the surrogate settings after each call', p['desc'], p['flags'], flags); continue
+        for tag in ('O', 'B'):
+            assert t.tok() == tag
+            for q in REFIT_ORDER:
+                tk = t.tok()
+                m = None
+                if tk != '-':
+                    m = (tk == 'T', t.nat(), t.nat())
+                im = p['infos'][tag, q]
+                what = '%s kernel of the %s surrogate' % (q, 'original' if tag == 'O' else 'rebuilt')
+                if (m is None) != (im is None):
+                    res.disagree(what + ' exists', p['desc'], im is not None, m is not None); break
+                if m is None:
+                    continue
+                nodes, normalized = im
+                if normalized is not None and normalized != m[0]:
+                    res.disagree(what + ': fitted with normalised inputs', p['desc'], normalized, m[0]); break
+                if nodes is not None and nodes != m[1]:
+                    res.disagree(what + ': number of nodes', p['desc'], nodes, m[1]); break
+
+
+def check_surrogate_training(res, ctx, thb, tht, rng, tmp, oracle_only, errs, scale=1):
+    """training grids (closely spaced points) and training orders x rebuild, binary Al-Zr and ternary Ni-Al-Cr"""
+    forced = [dict(kernel=None, dx=5e-4, log=False, nT=1, nx=4), dict(dx=1e-4, log=False, nT=3, nx=3, broadcast=True, dT=10.0),
+              dict(dx=1e-5, log=True, nT=2, nx=3), dict(dx=3e-5, log=False, nT=2, nx=3, broadcast=False, dT=0.5)]
+    nb, nt = ctx.n(9, 60) * scale, ctx.n(3, 16) * scale
+    for k in range(nb):
+        spec = gen_grid_spec(rng, 'binary', forced[k] if k < len(forced) else None)
+        guarded(res, errs, 'surrogate-training-grid-case', spec, lambda: run_grid_case(res, thb, spec))
+    for k in range(nt):
+        spec = gen_grid_spec(rng, 'multi', [dict(dx=5e-4, log=False, nT=1, nx=3), dict(dx=1e-4, log=False, nT=2, nx=3, curvature=True)][k] if k < 2 else None)
+        guarded(res, errs, 'surrogate-training-grid-case', spec, lambda: run_grid_case(res, tht, spec))
+    lines, pending = [], []
+    memo_b, memo_t = MemoTherm(thb), MemoTherm(tht)
+    forced_o = [dict(kernel=None, forms={'drivingForce': 'single-T', 'diffusivity': 'grid', 'interfacialComposition': 'grid'}),
+                dict(kernel={'kernel': 'cubic', 'normalize': True}, forms={'drivingForce': 'grid', 'diffusivity': 'single-x', 'interfacialComposition': 'single-g'}),
+                dict(kernel={'kernel': 'linear', 'normalize': False})]
+    for k in range(ctx.n(4, 20) * scale):
+        spec = gen_orders_spec(rng, 'binary', forced_o[k] if k < len(forced_o) else None)
+        guarded(res, errs, 'surrogate-training-orders-case', spec, lambda: run_orders_case(res, ctx, memo_b, spec, tmp, lines, pending))
+    for k in range(ctx.n(2, 8) * scale):
+        spec = gen_orders_spec(rng, 'multi', dict(kernel=None) if k == 0 else None)
+        guarded(res, errs, 'surrogate-training-orders-case', spec, lambda: run_orders_case(res, ctx, memo_t, spec, tmp, lines, pending))
+    if ctx.driver_ok and not oracle_only and lines:
+        guarded(res, errs, 'surrogate-fit-model-comparison', {}, lambda: compare_orders(res, vlib.run_driver(PROP, lines), pending))
+
+
 # ============================================================================ corr / search / replay
 def guarded(res, errs, key, desc, fn):
     """one case: an exception raised inside the code under test is a violation (the harness does not raise on the unchanged
@@ -1930,6 +2592,8 @@ def corr(ctx, scale=1, oracle_only=False, only=None):
                 'untrained getters on random points of the real Al-Zr / Ni-Cr-Al thermodynamics (phases by default or named); every getter of both surrogate classes on a recording mock thermodynamics in every call form (default, all keywords, each keyword alone, positional, positional extras) + random calls, non-default value for every argument; untrained and partially trained MulticomponentSurrogate of Al-Mg-Si (5 precipitate phases) for every phase; tiny trained surrogates (linear/log, broadcast or point lists); random arrays through JSON. '
                 'non-trivial = populated size distribution / evolved profile / a getter evaluated; distinct = configuration + save point')
     rng = ctx.rng
+    import time as _t0
+    t_start = _t0.time()
     tmp = tempfile.mkdtemp(prefix='kawin_C20_', dir='/tmp')
     lines, pending, jlines, jpending = [], [], [], []
     try:
@@ -1986,6 +2650,22 @@ def corr(ctx, scale=1, oracle_only=False, only=None):
                 for k in range(ctx.n(2, 12) * scale):
                     guarded(res, errs, 'trained-multi-case', {}, lambda: check_trained_multi(res, tht, rng, tmp, jlines, jpending, force=[True, False, None][min(k, 2)]))
                 guarded(res, errs, 'json-case', {}, lambda: json_model_compare(res, ctx if not oracle_only else _NoDriver(ctx), rng, jlines, jpending, ctx.n(150, 1500)))
+            # the generators added later draw from streams of their own (the cases above stay what they were for a given seed);
+            # every call of corr() in one process (search, replay) continues with new cases
+            _CALLS['n'] += 1
+            import random as _random
+            import time as _time
+            t1 = _time.time()
+            res.extra.setdefault('section_s', {})['existing save/load + surrogate sections'] = round(t1 - t_start, 1)
+            if only in (None, 'history'):
+                rh = _random.Random('C20-history-%d-%d' % (ctx.seed, _CALLS['n']))
+                check_histories(res, ctx, tmp, rh, ctx.n(2, 6) * scale, ctx.n(10, 80) * scale, oracle_only, errs)
+            t2 = _time.time()
+            res.extra['section_s']['save/load histories'] = round(t2 - t1, 1)
+            if only in (None, 'surrogate', 'surrogate-training'):
+                rs = _random.Random('C20-training-%d-%d' % (ctx.seed, _CALLS['n']))
+                check_surrogate_training(res, ctx, kwnruns.therm_binary(), kwnruns.therm_ternary(), rs, tmp, oracle_only, errs, scale)
+            res.extra['section_s']['surrogate training grids / orders'] = round(_time.time() - t2, 1)
     finally:
         shutil.rmtree(tmp, ignore_errors=True)
     try:
@@ -1997,6 +2677,9 @@ def corr(ctx, scale=1, oracle_only=False, only=None):
         if not res.violations:
             raise RuntimeError('harness error(s) in %d case(s), first:\n%s' % (len(errs), errs[0]))
     return res
+
+
+_CALLS = {'n': 0}
 
 
 class _NoDriver:
@@ -2012,6 +2695,7 @@ def search(ctx, broken):
 
 
 def replay(ctx, entry):
+    import kwnruns
     v = entry['violation']
     case = v['case']
     res = Result()
@@ -2021,7 +2705,18 @@ def replay(ctx, entry):
         with warnings.catch_warnings():
             warnings.simplefilter('ignore')
             np.seterr(all='ignore')
-            if 'system' in case:
+            if case.get('history'):
+                cfg = dict(case['cfg'])
+                if isinstance(cfg.get('x0'), list):
+                    cfg['x0'] = tuple(cfg['x0'])
+                guarded(res, [], 'saveload-history', dict(case), lambda: run_history(res, ctx, tmp, case['kind'], cfg, [tuple(o) for o in case['ops']]))
+            elif case.get('check') == 'training-grid':
+                th = kwnruns.therm_binary() if case['system'] == 'binary' else kwnruns.therm_ternary()
+                guarded(res, [], 'surrogate-training-grid-case', dict(case), lambda: run_grid_case(res, th, case))
+            elif case.get('check') == 'training-orders':
+                th = kwnruns.therm_binary() if case['system'] == 'binary' else kwnruns.therm_ternary()
+                guarded(res, [], 'surrogate-training-orders-case', dict(case), lambda: run_orders_case(res, ctx, th, case, tmp))
+            elif 'system' in case:
                 cfg = {k: case[k] for k in ('system', 'x0', 'T', 'gamma', 'bins', 'minBins', 'maxBins', 'adaptive', 'record', 'steps', 'solver', 'strength', 'cMax') if k in case}
                 if isinstance(cfg['x0'], list):
                     cfg['x0'] = tuple(cfg['x0'])
